@@ -269,6 +269,15 @@ def impose_measure_applies_every_collapse(ctx):
         if isinstance(n, ast.FunctionDef) and n.name == 'dec':
             n.body = [ast.Pass()]
     ast.fix_missing_locations(outer)
+    # the two helpers it applies keep their confirmed definitions (references shared with C18.d/e)
+    from .c18_refs import REFS as R18
+    for hname, hwhat in (('impose_collapse', 'merged points: positions to the first, weights summed onto it'),
+                         ('impose_unweighted', 'listed weights zeroed, the rest renormalised to the original mass (all mass listed and not nullable: spread evenly)')):
+        a = 'mystic.math.measures:' + hname
+        hf = ctx.func(a)
+        got, want = SB.agree(hf.node, R18[a], strict_casts=True)
+        ctx.stats['terms_compared'] += len(got)
+        ctx.check(got == want, hname, hwhat, '%s (applied by impose_measure) differs from its confirmed behaviour: %s' % (hname, SB.diff(got, want)), hf, hf.node)
     for node, src, what, label in ((outer, ref_outer, 'a single dict is wrapped in a tuple; nothing is merged', 'impose_measure'),
                                    (g.node, ref_inner, 'every collapse of every dict is applied per call, tracking first, then noweight', 'impose_measure.func')):
         got, want = SB.agree(node, src)
@@ -284,3 +293,24 @@ def delegated_statistics_are_explicit_sums(ctx):
                        ('expected_variance', '_expected_moment(order=2)'), ('support_index', 'indices with w > tol'), ('support', 'points with w > tol')):
         a = 'mystic.math.measures:' + name
         _ref(ctx, a, R18[a], what)
+
+
+@rule('C19.i', min_instances=2)
+def measures_do_not_share_a_default_container(ctx):
+    """no function or method of math.discrete / math.measures has a mutable default argument that it keeps (stores on the object, puts into a container, returns) or mutates: scenario / measure objects built without that argument would all hold the same list, so an in-place edit of one object's values shows up in every other and a flatten/load round trip no longer returns an equal object; positive control on a synthetic constructor"""
+    probe = ast.parse('def __init__(self, pm=None, values=[]):\n    self.__Y = values\n').body[0]
+    ctx.need(len(escaping_mutable_defaults(probe)) == 1, 'mutable-default detector lost its positive control')
+    for mname in ('mystic.math.discrete', 'mystic.math.measures'):
+        m = ctx.model.modules[mname]
+        n = 0
+        found = []
+        for q, fi in sorted(m.funcs.items()):
+            n += 1
+            for pname, how, node in escaping_mutable_defaults(fi.node):
+                found.append((fi, pname, how, node))
+        for fi, pname, how, node in found:
+            ctx.touch(fi)
+            ctx.bad('%s#default[%s]' % (fi.qualname, pname), '%s has the mutable default %s=... and it is %s: every call that omits `%s` shares one object'
+                    % (fi.qualname, pname, how, pname), fi, node)
+        if not found:
+            ctx.ok(mname + '#defaults', '%d functions: no mutable default argument is kept or mutated' % n, next(iter(m.funcs.values())), m.tree)
